@@ -22,7 +22,8 @@ EXPLANATION = (
     "shared||client_pk||server_pk into 2*SESSIONKEYBYTES and split at SESSIONKEYBYTES. BEFORENM: "
     "HSalsa20(zero input, X25519(sk, pk)). PRECALC: every public two-argument constructor returning a "
     "PrecalcSecretKey returns a value that depends on crypto_box_beforenm(both arguments) or on a constructor it "
-    "delegates to.")
+    "delegates to. ROLE: at every crate-internal call edge, a value the caller names as a secret key (parameter, "
+    "named local or record field) is not passed where the callee names a public key, and vice versa.")
 NOT_DECIDED = ("numerical correctness of the Montgomery ladder / X25519 output for every scalar and point; "
                "commutativity of DH; equality of session keys with libsodium (BLAKE2b as a function).")
 
